@@ -393,4 +393,231 @@ theorem parseStmts_org_label (cfg : PCfg) (f : Nat) (d own after : List Char)
   simp [hcoq]
   cases parseExprText own <;> simp [bind, Except.bind]
 
+/-! ## whole lines: comments, blank lines; consecutive instructions on one line -/
+
+
+theorem stripComment_plain (s : List Char) (h : ∀ x ∈ s, PlainCh x) : stripComment none s = s := by
+  have := stripComment_plain_append s [] h
+  simpa [stripComment] using this
+
+/-- a trailing comment carries no meaning for the statements of a line -/
+theorem parseLine_comment (cfg : PCfg) (s c : List Char) (h : ∀ x ∈ s, x ≠ ';' ∧ isQuote x = false) :
+    parseLine cfg (s ++ ';' :: c) = parseLine cfg s := by
+  unfold parseLine
+  rw [stripComment_plain_append s _ h, stripComment_plain s h]
+  simp [stripComment]
+
+/-- a blank line has no statements -/
+theorem parseLine_blank (cfg : PCfg) (l : List Char) (h : ∀ c ∈ l, isSpaceChar c = true) : parseLine cfg l = .ok [] := by
+  unfold parseLine
+  have hs : stripComment none l = l := stripComment_plain l (fun x hx => by
+    have := h x hx
+    constructor
+    · intro he; subst he; simp [isSpaceChar] at this
+    · cases hq : isQuote x with
+      | false => rfl
+      | true =>
+        simp only [isSpaceChar, Bool.or_eq_true, beq_iff_eq] at this
+        rcases this with rfl | rfl <;> simp [isQuote] at hq)
+  have ht : ptrim l = [] := by
+    unfold ptrim ptrimL
+    have : List.dropWhile isSpaceChar l = [] := by
+      clear hs
+      induction l with
+      | nil => rfl
+      | cons c l ih =>
+        rw [List.dropWhile_cons_of_pos (h c (List.mem_cons_self ..))]
+        exact ih (fun x hx => h x (List.mem_cons_of_mem _ hx))
+    rw [this]; rfl
+  rw [hs, ht]
+
+
+theorem takeWhile_append_stop' (p : Char → Bool) (y r : List Char) (h : ∃ c ∈ y, p c = false) :
+    (y ++ r).takeWhile p = y.takeWhile p := by
+  induction y with
+  | nil => obtain ⟨c, hc, _⟩ := h; cases hc
+  | cons a y ih =>
+    by_cases ha : p a = true
+    · rw [List.cons_append, List.takeWhile_cons_of_pos ha, List.takeWhile_cons_of_pos ha]
+      obtain ⟨c, hc, hpc⟩ := h
+      rcases List.mem_cons.mp hc with rfl | hc'
+      · rw [ha] at hpc; cases hpc
+      · rw [ih ⟨c, hc', hpc⟩]
+    · have ha' : p a = false := by simpa using ha
+      rw [List.cons_append, List.takeWhile_cons_of_neg (by simp [ha']), List.takeWhile_cons_of_neg (by simp [ha'])]
+
+/-- text without quotes that ends in a blank and in which no word is a mnemonic: scanning it for the
+    start of the next instruction finds nothing, whatever follows -/
+theorem cutAtMnemonic_pre (cfg : PCfg) (pre rest : List Char) (s : Bool)
+    (hq : ∀ c ∈ pre, isQuote c = false)
+    (hlast : ∃ a, pre = a ++ [' '])
+    (hno : cutAtMnemonic cfg none s pre = (pre, [])) :
+    cutAtMnemonic cfg none s (pre ++ rest) = (pre ++ (cutAtMnemonic cfg none true rest).1, (cutAtMnemonic cfg none true rest).2) := by
+  induction pre generalizing s with
+  | nil => obtain ⟨a, ha⟩ := hlast; cases a <;> simp at ha
+  | cons c pre ih =>
+    have hqc : isQuote c = false := hq c (List.mem_cons_self ..)
+    have hq' : ∀ x ∈ pre, isQuote x = false := fun x hx => hq x (List.mem_cons_of_mem _ hx)
+    rw [cutAtMnemonic] at hno
+    rw [List.cons_append, cutAtMnemonic]
+    simp only [hqc, Bool.false_eq_true, if_false] at hno ⊢
+    -- the name that starts here lies inside `pre` (which ends in a blank)
+    have hname : (takeName (c :: (pre ++ rest))).1 = (takeName (c :: pre)).1 := by
+      unfold takeName
+      simp only
+      rw [← List.cons_append]
+      apply takeWhile_append_stop'
+      obtain ⟨a, ha⟩ := hlast
+      exact ⟨' ', by rw [ha]; simp, by decide⟩
+    rw [hname]
+    split at hno
+    · -- a cut inside `pre` contradicts `hno`
+      simp at hno
+    · rename_i hcut
+      simp only [hcut, Bool.false_eq_true, if_false]
+      cases pre with
+      | nil =>
+        -- `pre = [c]`, so `c` is the final blank
+        obtain ⟨a, ha⟩ := hlast
+        have hc : c = ' ' := by
+          cases a with
+          | nil => simpa using ha
+          | cons x xs => cases xs <;> simp at ha
+        subst hc
+        simp [isNameChar, isWordChar]
+      | cons d pre' =>
+        have hlast' : ∃ a, d :: pre' = a ++ [' '] := by
+          obtain ⟨a, ha⟩ := hlast
+          cases a with
+          | nil => simp at ha
+          | cons x xs => exact ⟨xs, by simpa using (List.cons.inj ha).2⟩
+        have hno' : cutAtMnemonic cfg none (!isNameChar c) (d :: pre') = (d :: pre', []) := by
+          cases hc : cutAtMnemonic cfg none (!isNameChar c) (d :: pre') with
+          | mk x y =>
+            rw [hc] at hno
+            simp only [Prod.mk.injEq, List.cons.injEq, true_and] at hno
+            rw [hno.1, hno.2]
+        rw [ih (!isNameChar c) hq' hlast' hno']
+        simp
+
+/-- a mnemonic that starts a word is where the operand text of the previous instruction ends -/
+theorem cutAtMnemonic_at_mnemonic (cfg : PCfg) (w2 r2 : List Char) (hw2 : NameText w2)
+    (hr2 : ∀ c, r2.head? = some c → isNameChar c = false) (hm : cfg.mnemonics.contains (lowerS w2) = true) :
+    cutAtMnemonic cfg none true (w2 ++ r2) = ([], w2 ++ r2) := by
+  obtain ⟨hne, hall⟩ := hw2
+  obtain _ | ⟨c, w'⟩ := w2
+  · contradiction
+  have hc : isNameChar c = true := hall c (List.mem_cons_self ..)
+  have hqc : isQuote c = false := by
+    cases hq : isQuote c with
+    | false => rfl
+    | true =>
+      simp only [isQuote, Bool.or_eq_true, beq_iff_eq] at hq
+      rcases hq with rfl | rfl <;> simp [isNameChar, isWordChar] at hc
+  have hn := takeName_name (c :: w') r2 hall hr2
+  rw [List.cons_append, cutAtMnemonic]
+  simp only [hqc, Bool.false_eq_true, if_false, hc, Bool.true_and]
+  rw [List.cons_append] at hn
+  rw [hn]
+  have hm' : lowerS (c :: w') ∈ cfg.mnemonics := by simpa using hm
+  simp [hm']
+
+/-- consecutive instructions on one line: the line is the first instruction (its operand text ends
+    where the next mnemonic starts a word) followed by the statements of the rest -/
+theorem parseStmts_isa_front (cfg : PCfg) (f : Nat) (w ops w2 r2 : List Char)
+    (hw : NameText w) (hwdot : w.head? ≠ some '.') (hmn : cfg.mnemonics.contains (lowerS w) = true)
+    (hops : ops ≠ [] ∧ ∀ c ∈ ops, isQuote c = false)
+    (hop0 : ∀ c, ops.head? = some c → isSpaceChar c = false ∧ c ≠ '=' ∧ c ≠ ':')
+    (hequ : lowerS (takeName ops).1 ≠ "equ")
+    (hno : cutAtMnemonic cfg none false (' ' :: ops ++ [' ']) = (' ' :: ops ++ [' '], []))
+    (hw2 : NameText w2) (hr2 : ∀ c, r2.head? = some c → isNameChar c = false)
+    (hm2 : cfg.mnemonics.contains (lowerS w2) = true) (hrt : ptrimR r2 = r2) :
+    parseStmts cfg (f + 1) (w ++ ' ' :: ops ++ ' ' :: w2 ++ r2) =
+      (do let fs ← (match parseOperands cfg.regs (' ' :: ops ++ [' ']) with
+                    | .ok fs => pure fs
+                    | .error _ => .error .noVariant)
+          let more ← parseStmts cfg f (w2 ++ r2)
+          .ok (.isa (lowerS w) fs :: more)) := by
+  obtain ⟨hwne, hwall⟩ := hw
+  obtain ⟨hone, hoq⟩ := hops
+  obtain ⟨hw2ne, hw2all⟩ := hw2
+  obtain _ | ⟨c0, w'⟩ := w
+  · contradiction
+  obtain _ | ⟨o0, ops'⟩ := ops
+  · contradiction
+  obtain ⟨ho0s, ho0e, ho0c⟩ := hop0 o0 rfl
+  have hc0n : isNameChar c0 = true := hwall c0 (List.mem_cons_self ..)
+  have hc0s : isSpaceChar c0 = false := nameChar_not_space c0 hc0n
+  have hc0dot : (c0 == '.') = false := by
+    cases h : (c0 == '.') with
+    | false => rfl
+    | true => simp at h; subst h; simp at hwdot
+  have hc0q : (c0 == '"') = false := by
+    cases h : (c0 == '"') with
+    | false => rfl
+    | true => simp at h; subst h; simp [isNameChar, isWordChar] at hc0n
+  -- the tail of the line has no trailing blanks: the last character of `w2 ++ r2` is not a blank
+  have htail : ptrimR (w2 ++ r2) = w2 ++ r2 := by
+    obtain ⟨lw, hlw⟩ : ∃ lw, w2.getLast? = some lw := by
+      cases h : w2.getLast? with
+      | none => simp at h; contradiction
+      | some lw => exact ⟨lw, rfl⟩
+    rw [ptrimR_append_last w2 r2 lw hlw (nameChar_not_space lw (hw2all lw (List.mem_of_getLast? hlw))), hrt]
+  have ht : ptrim ((c0 :: w') ++ ' ' :: (o0 :: ops') ++ ' ' :: w2 ++ r2) = (c0 :: w') ++ ' ' :: (o0 :: ops') ++ ' ' :: w2 ++ r2 := by
+    unfold ptrim
+    rw [List.cons_append, List.cons_append, List.cons_append, ptrimL_cons_nonspace _ _ hc0s]
+    obtain ⟨lw, hlw⟩ : ∃ lw, w2.getLast? = some lw := by
+      cases h : w2.getLast? with
+      | none => simp at h; contradiction
+      | some lw => exact ⟨lw, rfl⟩
+    have e1 : c0 :: (w' ++ ' ' :: o0 :: ops' ++ ' ' :: w2 ++ r2) = (c0 :: (w' ++ ' ' :: o0 :: ops' ++ ' ' :: w2)) ++ r2 := by simp
+    rw [e1, ptrimR_append_last _ r2 lw (by simp [List.getLast?_append, hlw, List.getLast?_cons]) (nameChar_not_space lw (hw2all lw (List.mem_of_getLast? hlw))), hrt]
+  have hn : takeName ((c0 :: w') ++ ' ' :: ((o0 :: ops') ++ ' ' :: (w2 ++ r2))) = (c0 :: w', ' ' :: ((o0 :: ops') ++ ' ' :: (w2 ++ r2))) :=
+    takeName_name _ _ hwall (by intro c hc; simp at hc; subst hc; decide)
+  have hr1 : ptrimL (' ' :: ((o0 :: ops') ++ ' ' :: (w2 ++ r2))) = (o0 :: ops') ++ ' ' :: (w2 ++ r2) := by
+    simp [ptrimL, ho0s, show isSpaceChar ' ' = true by decide]
+  -- the name at the start of the operand text lies inside `ops`
+  have hname : (takeName ((o0 :: ops') ++ ' ' :: (w2 ++ r2))).1 = (takeName (o0 :: ops')).1 := by
+    unfold takeName
+    simp only
+    by_cases hall : ∀ c ∈ (o0 :: ops'), isNameChar c = true
+    · have := takeWhile_append_stop isNameChar (o0 :: ops') (' ' :: (w2 ++ r2)) hall (by intro c hc; simp at hc; subst hc; decide)
+      rw [this.1]
+      have h2 := takeWhile_append_stop isNameChar (o0 :: ops') [] hall (by intro c hc; simp at hc)
+      simpa using h2.1.symm
+    · have : ∃ c ∈ (o0 :: ops'), isNameChar c = false := by
+        apply Classical.byContradiction
+        intro hcon
+        apply hall
+        intro c hc
+        cases hp : isNameChar c with
+        | true => rfl
+        | false => exact absurd ⟨c, hc, hp⟩ hcon
+      exact takeWhile_append_stop' isNameChar _ _ this
+  have hcut : cutAtMnemonic cfg none false (' ' :: ((o0 :: ops') ++ ' ' :: (w2 ++ r2))) = (' ' :: (o0 :: ops') ++ [' '], w2 ++ r2) := by
+    have e : ' ' :: ((o0 :: ops') ++ ' ' :: (w2 ++ r2)) = (' ' :: (o0 :: ops') ++ [' ']) ++ (w2 ++ r2) := by simp
+    rw [e, cutAtMnemonic_pre cfg _ _ false (by
+          intro c hc
+          simp only [List.cons_append, List.mem_cons, List.mem_append, List.not_mem_nil, or_false] at hc
+          rcases hc with rfl | rfl | hc | rfl
+          · decide
+          · exact hoq _ (List.mem_cons_self ..)
+          · exact hoq _ (List.mem_cons_of_mem _ hc)
+          · decide) ⟨' ' :: o0 :: ops', by simp⟩ hno,
+        cutAtMnemonic_at_mnemonic cfg w2 r2 ⟨hw2ne, hw2all⟩ hr2 hm2]
+    simp
+  rw [parseStmts]
+  simp only [ht]
+  simp only [List.cons_append, List.append_assoc] at hn hr1 hname hcut ⊢
+  simp only [hn]
+  have hcolon : ((' ' :: o0 :: (ops' ++ ' ' :: (w2 ++ r2))).head? == some ':') = false := by simp
+  simp only [hr1, hname]
+  have heq1 : ((o0 :: (ops' ++ ' ' :: (w2 ++ r2))).head? == some '=') = false := by
+    simp [ho0e]
+  have hequ' : (lowerS (takeName (o0 :: ops')).fst == "equ") = false := by simpa using hequ
+  have hmn' : lowerS (c0 :: w') ∈ cfg.mnemonics := by simpa using hmn
+  simp [hequ', hc0dot, hc0q, hcut, ho0e, hmn']
+  cases parseOperands cfg.regs (' ' :: o0 :: (ops' ++ [' '])) <;> rfl
+
+
 end BV
